@@ -124,6 +124,8 @@ ConcBad(pre, calls, post, flags) ==
 \*             nothing is then attributed to the F8 shape by mistake... conservatively none)
 HistS0 == [joins |-> 0, leaves |-> 0, track |-> [s \in {} |-> 0], occAtNext |-> {}, posAtNext |-> <<NULL, NULL, NULL>>]
 HistSJump(t) == [joins |-> Cardinality(Occupied(t)), leaves |-> 0, track |-> [s \in {} |-> 0], occAtNext |-> {}, posAtNext |-> <<NULL, NULL, NULL>>]
+\* a jump to a state whose explorer path is known: positions / occupied seats of the last successful move on that path
+HistSJumpWith(t, pos, occ) == [HistSJump(t) EXCEPT !.posAtNext = pos, !.occAtNext = occ]
 HistSNext(h, m, t, o) ==
   [joins |-> h.joins + (IF o.op = "Join" /\ o.res = "" THEN 1 ELSE 0),
    leaves |-> h.leaves + (IF o.op = "Leave" /\ o.res = "" THEN 1 ELSE 0)
